@@ -4,7 +4,7 @@
 Require Extraction.
 Require ExtrOcamlBasic.
 From Coq Require Import ZArith String List.
-From LW Require Import Gen.Consts Base.Bytes Base.Sweep Model.Epoch Model.TagName Spec.Numbers Model.TagIter Spec.TagSpec Model.Tags Model.CRC Spec.CRCSpec Model.SecStr Spec.SecStrSpec Gen.Tables Model.Radiotap Model.Frame Spec.FrameSpec Model.Macro Spec.CapSpec Model.RadiotapGen Spec.RadiotapSpec Spec.RadiotapGenSpec Model.Eapol Spec.EapolSpec.
+From LW Require Import Gen.Consts Base.Bytes Base.Sweep Model.Epoch Model.TagName Spec.Numbers Model.TagIter Spec.TagSpec Model.Tags Model.CRC Spec.CRCSpec Model.SecStr Spec.SecStrSpec Gen.Tables Model.Radiotap Model.Frame Spec.FrameSpec Model.Macro Spec.CapSpec Model.RadiotapGen Spec.RadiotapSpec Spec.RadiotapGenSpec Model.Eapol Spec.EapolSpec Model.Gen Spec.GenSpec Model.Security Model.Mgmt.
 Extraction Language OCaml.
 Set Extraction KeepSingleton.
 Extraction "model.ml"
@@ -22,4 +22,12 @@ Extraction "model.ml"
   get_wifi_frame parse_data spec_classify spec_data
   check_cap_eval lookup_enum shapes ieee_cap_bits
   create_radiotap s_render s_restrict carriedb s_info s_wf1b
-  check_wpa_handshake check_wpa_message get_wpa_key_data_length get_wpa_data s_is_handshake s_message s_wpa_data be16.
+  check_wpa_handshake check_wpa_message get_wpa_key_data_length get_wpa_data s_is_handshake s_message s_wpa_data be16
+  create_beacon create_probe_resp create_probe_req create_assoc_req create_reassoc_req create_assoc_resp create_reassoc_resp
+  create_auth create_deauth create_disassoc create_timing_advert create_action add_action_detail a_length a_dump
+  create_atim create_rts create_cts g_length g_dump g_add
+  s_beacon s_probe_resp s_probe_req s_assoc_req s_reassoc_req s_assoc_resp s_reassoc_resp s_auth s_deauth s_disassoc
+  s_action s_timing_advert s_atim s_rts s_cts
+  random_mac g_dump_mem a_dump_mem dump_tag_mem
+  parse_beacon parse_probe_resp parse_assoc_resp parse_reassoc_resp parse_probe_req parse_assoc_req parse_reassoc_req
+  parse_deauth parse_disassoc get_rsn_info get_wpa_info enumerate_rsn enumerate_wpa.
